@@ -38,7 +38,9 @@ func init() {
 }
 
 func c12Doc(g *xgen.G) *xdoc.Doc {
-	switch g.Intn(4) {
+	switch g.Intn(5) {
+	case 4:
+		return g.DeepTree()
 	case 0:
 		return g.WideTree(3, 12)
 	case 1:
